@@ -69,8 +69,16 @@ func zzVaryHas(h http.Header, name string) bool {
 func ZZC11(n int) {
 	mode := n / 10000 // 0: both properties, 1: C11 only, 2: C12 only
 	n %= 10000
-	origins := zzOrigins[n/1000]
-	allowH := zzAllowHdrs[n/100%10]
+	oi := n / 1000
+	var origins, allowH []string
+	switch oi {
+	case 5: // WithAllowedCORS(maxAge): any origin, any header
+		origins, allowH = []string{"*"}, []string{"*"}
+	case 6: // WithDenyCORS()
+	default:
+		origins = zzOrigins[oi]
+		allowH = zzAllowHdrs[n/100%10]
+	}
 	anyOrigin := zzContains(origins, "*")
 	var exposed []string
 	cred := false
@@ -83,7 +91,16 @@ func ZZC11(n int) {
 		maxAge = zzv.Int("maxage")
 		zzv.Assume(maxAge >= 1 && maxAge <= 99999)
 	}
-	r := zzNewRouter("r", WithCORS(origins, allowH, exposed, maxAge, cred))
+	var r *Router[*hnd]
+	switch oi {
+	case 5:
+		exposed, cred = nil, false
+		r = zzNewRouter("r", WithAllowedCORS(maxAge))
+	case 6:
+		r = zzNewRouter("r", WithDenyCORS())
+	default:
+		r = zzNewRouter("r", WithCORS(origins, allowH, exposed, maxAge, cred))
+	}
 	r.Handle("/a", &hnd{id: 1}, nil, "GET", "DELETE")
 
 	// the request
